@@ -168,6 +168,9 @@ func GetOriginalSetting(object client.Object) (OriginalDeploymentStrategy, error
 // which means they should keep unchanged in continuous release (though continuous release isn't supported for now)
 func InitOriginalSetting(setting *OriginalDeploymentStrategy, object client.Object) {
 	var changeLogs []string
+	// minReadySeconds has no "unset" value: a saved 0 is the user's setting. It is taken from the
+	// object only when nothing has been saved yet (the other fields are always saved together with it).
+	nothingSaved := setting.MaxSurge == nil && setting.MaxUnavailable == nil
 	switch o := object.(type) {
 	case *apps.Deployment:
 		if setting.MaxSurge == nil {
@@ -182,7 +185,7 @@ func InitOriginalSetting(setting *OriginalDeploymentStrategy, object client.Obje
 			setting.ProgressDeadlineSeconds = getIntPtrOrDefault(o.Spec.ProgressDeadlineSeconds, 600)
 			changeLogs = append(changeLogs, fmt.Sprintf("progressDeadlineSeconds changed from nil to %d", *setting.ProgressDeadlineSeconds))
 		}
-		if setting.MinReadySeconds == 0 {
+		if setting.MinReadySeconds == 0 && nothingSaved {
 			setting.MinReadySeconds = o.Spec.MinReadySeconds
 			changeLogs = append(changeLogs, fmt.Sprintf("minReadySeconds changed from 0 to %d", setting.MinReadySeconds))
 		}
@@ -198,7 +201,7 @@ func InitOriginalSetting(setting *OriginalDeploymentStrategy, object client.Obje
 		if setting.ProgressDeadlineSeconds == nil {
 			// cloneset is planned to support progressDeadlineSeconds field
 		}
-		if setting.MinReadySeconds == 0 {
+		if setting.MinReadySeconds == 0 && nothingSaved {
 			setting.MinReadySeconds = o.Spec.MinReadySeconds
 			changeLogs = append(changeLogs, fmt.Sprintf("minReadySeconds changed from 0 to %d", setting.MinReadySeconds))
 		}
